@@ -243,9 +243,22 @@ def extract_armfns(specs):
         m = re.match(r"\s*([\w:]+)\s*\{(.*)\}\s*$", pat, flags=re.S)
         if not m or not m.group(1).endswith("::" + f["variant"]):
             raise Undecided("lost anchor: pattern of %s is not a plain struct pattern of variant %s: %r" % (f["sel"], f["variant"], pat[:80]))
-        binds = _split_top(m.group(2))
-        if any(not re.fullmatch(r"\w+", b) for b in binds):
-            raise Undecided("lost anchor: pattern of %s has non-trivial bindings %r" % (f["sel"], binds))
+        raw = _split_top(m.group(2))
+        binds, names = [], {}
+        for b in raw:
+            if b == "..":
+                continue
+            bm = re.fullmatch(r"(\w+)\s*:\s*(\w+)", b)
+            if bm:
+                if bm.group(2) == "_":
+                    continue  # `field: _` binds nothing
+                binds.append(bm.group(1))
+                names[bm.group(1)] = bm.group(2)
+            elif re.fullmatch(r"\w+", b):
+                binds.append(b)
+                names[b] = b
+            else:
+                raise Undecided("lost anchor: pattern of %s has non-trivial bindings %r" % (f["sel"], raw))
         et = _strip_comments(re.sub(r"^\s*///[^\n]*$", "", en.text, flags=re.M))
         vm = re.search(r"\b" + f["variant"] + r"\s*\{(.*?)\}", et, flags=re.S)
         if not vm:
@@ -258,12 +271,17 @@ def extract_armfns(specs):
         missing = [b for b in binds if b not in ftypes]
         if missing:
             raise Undecided("lost anchor: bindings %s are not fields of variant %s" % (missing, f["variant"]))
-        params = ", ".join("%s: &%s" % (b, ftypes[b]) for b in binds)
-        text = "pub fn %s(&mut self, %s) %s" % (f["fn_name"], params, arm["body"].text)
+        plist = [f.get("self_param", "&mut self")] + list(f.get("extra_params", [])) + ["%s: &%s" % (names[b], ftypes[b]) for b in binds]
+        params = ", ".join(p for p in plist if p)
+        body = arm["body"].text
+        if f.get("wrap_loop"):
+            # the arm uses `continue` of the interpreter loop: run the body exactly once inside a loop
+            body = "{ let mut __once = false; loop { if __once { break; } __once = true; %s; break; } }" % body
+        text = "pub fn %s(%s) %s" % (f["fn_name"], params, body)
         fr = Fragment(f["name"], f["file"], f["sel"], "body", text, arm["body"].rng)
         fr.sha = arm["body"].sha
         fr.rewrites.append({"why": "match arm wrapped as a method; parameter list generated from the pattern bindings %s and the field types of %s::%s" % (binds, f["enum_sel"], f["variant"]),
-                            "pattern_sha256": arm["pat"].sha, "enum_sha256": en.sha, "generated_signature": "fn %s(&mut self, %s)" % (f["fn_name"], params)})
+                            "pattern_sha256": arm["pat"].sha, "enum_sha256": en.sha, "generated_signature": "fn %s(%s)" % (f["fn_name"], params)})
         out[f["name"]] = fr
     return out
 
